@@ -313,6 +313,8 @@ def _free_scenarios(K6):
          "maxCostOps": False, "ttls": [], "costs": [1], "ample": True, "sleep": False, "yield": True},
         {"name": "hotkey-collide", "cfg": _hc([1, 2], "CollHash", "CollConf", MaxCost=1000, BufCap=64), "goroutines": 10, "opsPer": 100,
          "clear": False, "maxCostOps": False, "ttls": [1, 5], "costs": [1], "ample": True, "sleep": True, "yield": True, "repeat": 3},
+        {"name": "expireswap", "cfg": _hc([1, 2], "CollHash", "CollConf", MaxCost=1000, BufCap=64, D=5), "goroutines": 9, "opsPer": 16,
+         "clear": False, "maxCostOps": False, "ttls": [1], "costs": [1], "ample": True, "sleep": True, "pattern": "expireswap", "yield": True, "park": True, "repeat": 2},
         {"name": "sweeprace", "cfg": _hc([1, 2, 3], MaxCost=100000, BufCap=64, D=1), "goroutines": 6, "opsPer": 150, "clear": False,
          "maxCostOps": False, "ttls": [1, 1, 2, 0, 30], "costs": [1], "ample": True, "sleep": True, "pattern": "sweeprace", "yield": True},
         {"name": "closesweep", "cfg": _hc(list(range(1, 41)), MaxCost=100000, BufCap=256, D=1), "goroutines": 1, "opsPer": 1, "clear": False,
